@@ -102,22 +102,7 @@ func (e *Env) RWalk() {
 	// the frame, decided semantically (independent of layout): before the switch the node is
 	// visited and a nil result prunes; after the switch an unconditional v.Visit(nil).
 	c := e.Sib.Ctx[load.PkgDst]
-	var pro []string
-	for _, st := range w.Prologue {
-		pro = append(pro, stmtNorm(c, st))
-	}
-	p := strings.Join(pro, " ;; ")
-	p = strings.ReplaceAll(p, "return ;", "return;")
-	okPro := p == "if v = v.Visit(node); v == nil { return; }" || p == "v = v.Visit(node) ;; if v == nil { return; }"
-	e.Run.Check("R-WALK", "Walk prologue: visit the node first, prune on nil", e.Prog.Pos(w.Func.Pos()), okPro,
-		"before the switch Walk must do exactly: v = v.Visit(node); return if v == nil; found: "+p)
-	okEpi := false
-	if len(w.Epilogue) == 1 {
-		if es, ok := w.Epilogue[0].(*ast.ExprStmt); ok {
-			okEpi = c.ExprStr(es.X) == "v.Visit(nil)"
-		}
-	}
-	e.Run.Check("R-WALK", "Walk epilogue: v.Visit(nil) after the children", e.Prog.Pos(w.Func.Pos()), okEpi, "the statement after the switch must be an unconditional v.Visit(nil)")
+	e.walkFrame(c, w)
 	// inspector.Visit returns the receiver iff f(node): evaluated over the single atom f(node)
 	pkg := e.Prog.Pkg(load.PkgDst)
 	if fd := load.FuncDecl(pkg, "inspector", "Visit"); fd != nil && fd.Body != nil {
@@ -390,4 +375,120 @@ func singleDefIn(info *types.Info, stmts []ast.Stmt, obj types.Object) ast.Expr 
 		return def
 	}
 	return nil
+}
+
+// walkFrame: the frame of Walk, on values rather than statements. W = v.Visit(node) is the child
+// visitor (v itself re-assigned, or a new local); Walk returns when W is nil; the children are
+// walked with W (in Walk's own switch or in a helper that receives W and the node); the last thing
+// Walk does, unconditionally, is W.Visit(nil) — on the child visitor, not on the one it was
+// called with.
+func (e *Env) walkFrame(c *schema.Ctx, w *schema.Sibling) {
+	info := c.Info
+	walk := w.Func
+	if w.Frame != nil {
+		walk = w.Frame
+	}
+	pos := e.Prog.Pos(walk.Pos())
+	var params []types.Object
+	for _, p := range walk.Type.Params.List {
+		for _, nm := range p.Names {
+			params = append(params, info.Defs[nm])
+		}
+	}
+	if len(params) != 2 {
+		e.Run.Violation("R-WALK", "Walk(v, node)", pos, "signature changed")
+		return
+	}
+	vObj, nodeObj := params[0], params[1]
+	objOf := func(x ast.Expr) types.Object {
+		id, ok := ast.Unparen(x).(*ast.Ident)
+		if !ok {
+			return nil
+		}
+		if o := info.Defs[id]; o != nil {
+			return o
+		}
+		return info.Uses[id]
+	}
+	isVisitOf := func(x ast.Expr, recv types.Object, argNil bool) bool {
+		call, ok := ast.Unparen(x).(*ast.CallExpr)
+		if !ok || len(call.Args) != 1 {
+			return false
+		}
+		se, ok := call.Fun.(*ast.SelectorExpr)
+		if !ok || se.Sel.Name != "Visit" || objOf(se.X) != recv {
+			return false
+		}
+		if argNil {
+			tv, ok := info.Types[call.Args[0]]
+			return ok && tv.IsNil()
+		}
+		return objOf(call.Args[0]) == nodeObj
+	}
+	// (1) W
+	var W types.Object
+	var visitPos token.Pos
+	ast.Inspect(walk.Body, func(n ast.Node) bool {
+		as, ok := n.(*ast.AssignStmt)
+		if ok && len(as.Lhs) == 1 && len(as.Rhs) == 1 && isVisitOf(as.Rhs[0], vObj, false) && W == nil {
+			W = objOf(as.Lhs[0])
+			visitPos = as.End()
+		}
+		return true
+	})
+	e.Run.Check("R-WALK", "Walk prologue: visit the node first, prune on nil", pos, W != nil, "no `w := v.Visit(node)` (or v = v.Visit(node)) in Walk")
+	if W == nil {
+		return
+	}
+	// (2) prune: an if with condition W == nil whose body returns, before anything else walks
+	pruned := false
+	ast.Inspect(walk.Body, func(n ast.Node) bool {
+		is, ok := n.(*ast.IfStmt)
+		if !ok || len(is.Body.List) == 0 {
+			return true
+		}
+		be, ok := ast.Unparen(is.Cond).(*ast.BinaryExpr)
+		if !ok || be.Op != token.EQL || objOf(be.X) != W {
+			return true
+		}
+		if tv, ok := info.Types[be.Y]; !ok || !tv.IsNil() {
+			return true
+		}
+		if _, isRet := is.Body.List[len(is.Body.List)-1].(*ast.ReturnStmt); isRet {
+			pruned = true
+		}
+		return true
+	})
+	e.Run.Check("R-WALK", "Walk prologue: a nil child visitor prunes the subtree", pos, pruned, "no `if w == nil { return }` for the visitor returned by v.Visit(node)")
+	// (3) children walked with W
+	if w.Frame != nil {
+		okCall := false
+		ast.Inspect(walk.Body, func(n ast.Node) bool {
+			call, ok := n.(*ast.CallExpr)
+			if !ok || len(call.Args) != 2 {
+				return true
+			}
+			if fn := c.Callee(call); fn != nil && info.Defs[w.Func.Name] == types.Object(fn) {
+				okCall = objOf(call.Args[0]) == W && objOf(call.Args[1]) == nodeObj && call.Pos() > visitPos
+			}
+			return true
+		})
+		e.Run.Check("R-WALK", "Walk hands the child visitor and the node to the helper that walks the children", pos, okCall, "the children must be walked with the visitor returned by v.Visit(node)")
+	} else {
+		e.Run.Check("R-WALK", "Walk's children are walked with the child visitor", pos, W == vObj,
+			"the cases of the switch walk with v; v must have been re-assigned to the visitor returned by v.Visit(node)")
+	}
+	// (4) last statement: W.Visit(nil)
+	okEpi := false
+	if n := len(walk.Body.List); n > 0 {
+		if es, ok := walk.Body.List[n-1].(*ast.ExprStmt); ok {
+			okEpi = isVisitOf(es.X, W, true)
+		}
+	}
+	e.Run.Check("R-WALK", "Walk epilogue: v.Visit(nil) after the children", pos, okEpi,
+		"the last statement of Walk must be an unconditional Visit(nil) on the visitor that v.Visit(node) returned (the one the children were walked with) — on any other visitor the closing call goes to the wrong level")
+	// nothing after the switch in the helper
+	if w.Frame != nil {
+		e.Run.Check("R-WALK", "the children helper does nothing after its switch", e.Prog.Pos(w.Func.Pos()), len(w.Epilogue) == 0 && len(w.Prologue) == 0, "statements before or after the type switch of the helper")
+	}
 }
